@@ -471,6 +471,7 @@ func runC06(r *Run) {
 		one(genEncRec(r.R, "color", pp), "random")
 	}
 	c06Testing(r, append(c06TestingCorpus(), withErr...))
+	c06DebugEnv(r, "C06", append(c06TestingCorpus(), withErr...))
 	r.Extra["records_without_escape_in_message"] = nHyg
 	r.Extra["records_in_layout_domain"] = nLay
 	r.Coq("Require Import Verif.Model.Base Verif.Model.Mode Verif.Model.Attrs Verif.Corr.Enc Verif.Corr.C06.", "Enc.ecase", "(ok isp)")
